@@ -113,8 +113,8 @@ def check_C01(tier, seed):
     r = random.Random(seed * 7919 + 1)
     quick = tier == "quick"
     vecs, gst = V.gen("SeqGen.tla", "SeqGen_fates6.cfg" if quick else "SeqGen_fates8.cfg", "C01")
-    n_vec = 900 if quick else 30000
-    n_rand = 700 if quick else 30000
+    n_vec = 900 if quick else 12000
+    n_rand = 700 if quick else 12000
     chosen = sample(vecs, n_vec, r)
     scripts = [scen.streamdata_script(r, i, fate_vec=v) for i, v in enumerate(chosen)]
     scripts += [scen.streamdata_script(r, i) for i in range(n_rand)]
@@ -152,7 +152,7 @@ def check_C04(tier, seed):
     quick = tier == "quick"
     vecs, gst = V.gen("SeqGen.tla", "SeqGen_fates6.cfg", "C04")
     n_vec = 500 if quick else 4096
-    n_rand = 1300 if quick else 60000
+    n_rand = 1300 if quick else 30000
     scripts = [scen.auth_script(r, i, fate_vec=v) for i, v in enumerate(sample(vecs, n_vec, r))]
     scripts += [scen.auth_script(r, len(scripts) + i) for i in range(n_rand)]
     mcs = [("Auth.tla", "MC_Auth.cfg" if quick else "MC_Auth10.cfg")]
@@ -169,7 +169,7 @@ def check_C05(tier, seed):
     quick = tier == "quick"
     vecs, gst = V.gen("SeqGen.tla", "SeqGen_fates6.cfg", "C05")
     n_vec = 700 if quick else 4096
-    n_rand = 900 if quick else 50000
+    n_rand = 900 if quick else 20000
     scripts = [scen.flow_script(r, i, fate_vec=v) for i, v in enumerate(sample(vecs, n_vec, r))]
     scripts += [scen.flow_script(r, len(scripts) + i) for i in range(n_rand)]
     mcs = [("Credit.tla", "MC_Credit.cfg" if quick else "MC_Credit3.cfg")]
@@ -231,7 +231,7 @@ def check_C12(tier, seed):
     quick = tier == "quick"
     vecs, gst = V.gen("SeqGen.tla", "SeqGen_fates6.cfg", "C12")
     n_vec = 500 if quick else 4096
-    n_rand = 900 if quick else 40000
+    n_rand = 900 if quick else 25000
     scripts = [scen.recovery_script(r, i, fate_vec=v) for i, v in enumerate(sample(vecs, n_vec, r))]
     scripts += [scen.recovery_script(r, len(scripts) + i) for i in range(n_rand)]
     mcs = [("Recovery.tla", "MC_Recovery4.cfg" if quick else "MC_Recovery.cfg")]
@@ -270,13 +270,13 @@ def check_C02(tier, seed):
     quick = tier == "quick"
     vecs, gst = V.gen("SeqGen.tla", "SeqGen_fates6.cfg" if quick else "SeqGen_fates8.cfg", "C02")
     drops, gst2 = V.gen("SeqGen.tla", "SeqGen_drop10.cfg" if quick else "SeqGen_drop12.cfg", "C02d")
-    n_vec = 900 if quick else 65536
+    n_vec = 900 if quick else 24000
     n_drop = 600 if quick else 4096
     scripts = [scen.progress_script(r, i, fate_vec=v) for i, v in enumerate(sample(vecs, n_vec, r))]
     for d in sample(drops, n_drop, r):
         half = len(d) // 2
         scripts.append(scen.progress_script(r, len(scripts), drops_only=([x == "x" for x in d[:half]], [x == "x" for x in d[half:]])))
-    for _ in range(24 if quick else 400):
+    for _ in range(24 if quick else 200):
         scripts.append(scen.progress_eager(r, len(scripts)))
     mcs = [("Progress.tla", "MC_Progress.cfg" if quick else "MC_Progress3.cfg")]
     return generic("C02", tier, seed, mcs, scripts,
@@ -470,8 +470,8 @@ def check_C20(tier, seed):
     quick = tier == "quick"
     mc_res = [V.mc("Driver.tla", "MC_Driver.cfg", "C20")]
     vecs, gst = V.gen("SeqGen.tla", "SeqGen_fates6.cfg" if quick else "SeqGen_fates8.cfg", "C20")
-    n_vec = 500 if quick else 12000
-    n_rand = 460 if quick else 12000
+    n_vec = 500 if quick else 5000
+    n_rand = 460 if quick else 5000
     scripts = [scen.determinism_script(r, i, fate_vec=v) for i, v in enumerate(sample(vecs, n_vec, r))]
     scripts += [scen.determinism_script(r, len(scripts) + i) for i in range(n_rand)]
     d, files = pair_stage(scripts, "C20", fresh_every=4 if quick else 2)
